@@ -120,6 +120,9 @@ func readNat(b []byte) (v uint64, n int, ok bool) {
 	return v, 1 + l, true
 }
 
+// ReadNat exposes the model's natural-number reader (value, bytes consumed, ok).
+func ReadNat(b []byte) (uint64, int, bool) { return readNat(b) }
+
 // Deblob parses p = E(|j|) E1(z) E(|c|) Ez(j) c k exactly (no trailing bytes).
 func Deblob(p []byte) (*Program, bool) {
 	nj, n, ok := readNat(p)
@@ -863,3 +866,71 @@ func (p *Program) Run(st *State, maxSteps int) (Exit, int, bool) {
 	}
 	return Exit{}, maxSteps, false
 }
+
+// Ins is the decoded form of one instruction (written independently of Step so that the C05
+// frame monitor does not rely on the interpreter's execution path).
+type Ins struct {
+	Op         byte
+	Valid      bool
+	Skip       uint32
+	RA, RB, RD int
+	VX, VY     uint64
+	// memory behaviour: Kind = "load" | "store" | "" ; address = (Base + Off) mod 2^32 where Base is a
+	// register value (BaseReg >= 0) or 0
+	Kind    string
+	BaseReg int
+	Off     uint64
+	Width   uint32
+	Signed  bool
+	ValReg  int    // store: register holding the value (-1: immediate in Val)
+	Val     uint64 // store: immediate value
+	DstReg  int    // load: destination register
+}
+
+func (p *Program) Decode(pc uint32) Ins {
+	at := uint64(pc)
+	op := p.zeta(at)
+	in := Ins{Op: op, Valid: valid[op], Skip: p.Skip(pc), BaseReg: -1, ValReg: -1, DstReg: -1}
+	if !in.Valid {
+		return in
+	}
+	l := in.Skip
+	b1 := p.zeta(at + 1)
+	lo, hi := min(12, int(b1&15)), min(12, int(b1>>4))
+	widths := [...]uint32{1, 1, 2, 2, 4, 4, 8}
+	switch {
+	case op >= 30 && op <= 33:
+		lx := min(4, uint32(b1)%8)
+		ly := min(4, sat(l, lx+1))
+		in.VX, in.VY = p.imm(at+2, lx), p.imm(at+2+uint64(lx), ly)
+		in.Kind, in.Off, in.Width, in.Val = "store", in.VX, 1<<(op-30), in.VY
+	case op >= 52 && op <= 58:
+		in.RA = lo
+		in.VX = p.imm(at+2, min(4, sat(l, 1)))
+		in.Kind, in.Off, in.Width, in.Signed, in.DstReg = "load", in.VX, widths[op-52], (op-52)%2 == 1, lo
+	case op >= 59 && op <= 62:
+		in.RA = lo
+		in.VX = p.imm(at+2, min(4, sat(l, 1)))
+		in.Kind, in.Off, in.Width, in.ValReg = "store", in.VX, 1<<(op-59), lo
+	case op >= 70 && op <= 73:
+		lx := min(4, uint32(b1>>4)%8)
+		ly := min(4, sat(l, lx+1))
+		in.RA = lo
+		in.VX, in.VY = p.imm(at+2, lx), p.imm(at+2+uint64(lx), ly)
+		in.Kind, in.BaseReg, in.Off, in.Width, in.Val = "store", lo, in.VX, 1<<(op-70), in.VY
+	case op >= 120 && op <= 123:
+		in.RA, in.RB = lo, hi
+		in.VX = p.imm(at+2, min(4, sat(l, 1)))
+		in.Kind, in.BaseReg, in.Off, in.Width, in.ValReg = "store", hi, in.VX, 1<<(op-120), lo
+	case op >= 124 && op <= 130:
+		in.RA, in.RB = lo, hi
+		in.VX = p.imm(at+2, min(4, sat(l, 1)))
+		in.Kind, in.BaseReg, in.Off, in.Width, in.Signed, in.DstReg = "load", hi, in.VX, widths[op-124], (op-124)%2 == 1, lo
+	case op >= 100 && op <= 111:
+		in.RD, in.RA = lo, hi
+	}
+	return in
+}
+
+// SignExtend exposes X_n for monitors.
+func SignExtend(n uint32, v uint64) uint64 { return sx(n, v) }
